@@ -1,7 +1,10 @@
 From stdpp Require Import gmap.
 Require Import DS.Base DS.Runner DS.RunnerScripted DS.SdkErr DS.RunnerNestedInst.
+(* the binding runner (RunnerBind.v) is loaded AFTER Runner.v so that Runner's names keep their spelling in the extracted file *)
+Require Import DS.RunnerBind DS.RunnerBindScripted.
 Require Import ExtrOcamlBasic.
 Extraction Language OCaml.
 Extraction "../ocaml/gen/c03_model.ml" N.of_nat N.to_nat Z.of_N Z.to_N
   s_run s_iter_nohalt s_init s_exec label_table vars_list nat_str parse_i32
-  n_run n_log_of n_var n_iter.
+  n_run n_log_of n_var n_iter
+  sb_run.
